@@ -595,13 +595,15 @@ XIncludeUtils::doXIncludeTEXTFileDOM(const XMLCh *href,
     XMLSize_t nRead, nOffset=0;
     XMLBuffer repository;
     while((nRead=stream->readBytes(buffer+nOffset, maxToRead-nOffset))>0){
+        // the bytes carried over from the previous round come first
+        const XMLSize_t nAvail = nOffset + nRead;
         XMLSize_t bytesEaten=0;
-        XMLSize_t nCount = transcoder->transcodeFrom(buffer, nRead, xmlChars, maxToRead*2, bytesEaten, charSizes);
+        XMLSize_t nCount = transcoder->transcodeFrom(buffer, nAvail, xmlChars, maxToRead*2, bytesEaten, charSizes);
         repository.append(xmlChars, nCount);
-        if(bytesEaten<nRead) {
-            nOffset=nRead-bytesEaten;
-            memmove(buffer, buffer+bytesEaten, nRead-bytesEaten);
-        }
+        // keep an incomplete trailing sequence for the next round
+        nOffset = nAvail - bytesEaten;
+        if(nOffset > 0)
+            memmove(buffer, buffer+bytesEaten, nOffset);
     }
     return parsedDocument->createTextNode(repository.getRawBuffer());
 }
